@@ -15,6 +15,8 @@ Clauses (property C09):
                commands executed are a subsequence of these lines (a line is dropped only when its own input task failed)
   callouts     every scheduled call_out fired, unless its object was destructed (or shutdown)
   leak         no connection record outlives its user (slots occupied at the end = users still connected)
+  hb-schedule  within one loop iteration (one timer tick) an object's heart_beat runs at most once, and never after the
+               object was destructed: a failing or self-removing heart beat does not disturb the round of the others
   disconnect   the driver tells a user object `net_dead` only when that user's own client went away: events of other
                connections (hang-ups, errors, accepts arriving in the same poll) never cost a user its connection
 -/
@@ -166,6 +168,24 @@ def clauseDisconnect (x : Expect) (es : List Ev) : List String :=
         some s!"disconnect {u.name} lost its connection although client c{c} never hung up"
       else none)
 
+/-- clause `hb-schedule`: `seen` = objects whose heart_beat already ran in this iteration, `gone` = destructed objects
+    (a `dest` aimed at a user that has not logged on yet is a no-op in the driver), `on` = users that have logged on -/
+def hbSchedule : List Oid → List Oid → List Oid → List Ev → List String
+  | _, _, _, [] => []
+  | _, gone, on, .cycle _ :: es => hbSchedule [] gone on es
+  | seen, gone, on, .tLogon u :: es => hbSchedule seen gone (u :: on) es
+  | seen, gone, on, .tHb o :: es =>
+    if gone.contains o then [s!"hb-schedule heart_beat of destructed {o.name}"]
+    else if seen.contains o then [s!"hb-schedule {o.name} beat twice in one tick"]
+    else hbSchedule (o :: seen) gone on es
+  | seen, gone, on, .xDest _ t :: es =>
+    match t with
+    | .user _ => hbSchedule seen (if on.contains t then t :: gone else gone) on es
+    | _ => hbSchedule seen (t :: gone) on es
+  | seen, gone, on, _ :: es => hbSchedule seen gone on es
+
+def clauseHbSchedule (es : List Ev) : List String := hbSchedule [] [] [] es
+
 def judgeEv (x : Expect) (es : List Ev) : List String :=
   if !(clauseCrash es).isEmpty then clauseCrash es else
   let ex := hasExit es
@@ -205,6 +225,6 @@ def judgeEv (x : Expect) (es : List Ev) : List String :=
     | some n =>
       let live := (liveUsers [] es).length
       if n > live then [s!"leaked-conn slots={n} live-users={live}"] else []
-  v1 ++ v2 ++ v3 ++ v4 ++ v5 ++ v6 ++ v7 ++ clauseRefs es ++ clauseDisconnect x es
+  v1 ++ v2 ++ v3 ++ v4 ++ v5 ++ v6 ++ v7 ++ clauseRefs es ++ clauseDisconnect x es ++ clauseHbSchedule es
 
 end NV.C09
